@@ -1,9 +1,11 @@
 package main
 
 import (
+	"encoding/json"
 	"flag"
 	"fmt"
 	"os"
+	"path/filepath"
 	"sort"
 	"strconv"
 	"strings"
@@ -74,7 +76,26 @@ func main() {
 	noEv := flag.Bool("no-evidence", false, "do not write evidence (used by witness subprocesses)")
 	overlay := flag.String("overlay", "", "file=replacement pairs, comma separated (in-memory source overlay)")
 	onlyRule := flag.String("rule", "", "only run rules with this id prefix")
+	genKnown := flag.Bool("gen-known", false, "write spec/known_funcs.json (the reviewed function table) from the repository and exit")
 	flag.Parse()
+	verifDir = *verif
+	if st, err := os.Stat(filepath.Join(*verif, "spec")); err == nil && st.IsDir() {
+		specDir = filepath.Join(*verif, "spec")
+	}
+	if *genKnown {
+		keys, err := genKnownFuncs(*repo)
+		if err != nil || len(keys) < 100 {
+			fmt.Println("gen-known:", err, len(keys))
+			os.Exit(2)
+		}
+		b, _ := json.MarshalIndent(keys, "", " ")
+		if err := os.WriteFile(knownFuncsPath(), append(b, '\n'), 0o644); err != nil {
+			fmt.Println(err)
+			os.Exit(2)
+		}
+		fmt.Printf("wrote %d function keys to %s\n", len(keys), knownFuncsPath())
+		return
+	}
 
 	if *explain != "" {
 		b, err := os.ReadFile(*explain)
@@ -176,6 +197,9 @@ func main() {
 			res.Obs = append(res.Obs, r.Obs...)
 			for _, n := range r.Notes {
 				res.Notes = append(res.Notes, "["+cfg.Name+"] "+n)
+			}
+			for _, n := range c.InlineNotes {
+				res.Notes = append(res.Notes, "["+cfg.Name+"] normalisation: "+n)
 			}
 			for a := range r.Assume {
 				dup := false
